@@ -30,7 +30,7 @@ theorem check_sound_complete (m : MM) : check m = [] ↔ Spec m := by
   · rintro ⟨h1, h2, h3, h4, h5, h6, h7, h8⟩
     obtain ⟨a1, a2⟩ := (stage1_eq_nil m).mp h1
     obtain ⟨b1, b2, b3, b4⟩ := (stage2_eq_nil m).mp h2
-    obtain ⟨f1, f2⟩ := (stage6_eq_nil m).mp h6
+    obtain ⟨f0, f1, f2⟩ := (stage6_eq_nil m).mp h6
     obtain ⟨g0, g1, g2, g3, g4, g5⟩ := (stage8_eq_nil m).mp h8
     exact {
       membersUnique := a1, symbolsUnique := a2,
@@ -38,7 +38,7 @@ theorem check_sound_complete (m : MM) : check m = [] ↔ Spec m := by
       parentsExist := (stage3_eq_nil m).mp h3,
       typesExist := (stage4_eq_nil m).mp h4,
       acyclic := (stage5_eq_nil m).mp h5,
-      noRedeclaration := f1, ctorInherited := f2,
+      inheritedUnique := f0, noRedeclaration := f1, ctorInherited := f2,
       docsResolve := (docs_eq_nil m).mp ⟨h7, g0⟩,
       optionalDefaults := g1, ctorMatches := g2, shapes := g3, patterns := g4, invariantsUnique := g5 }
   · intro s
@@ -48,7 +48,7 @@ theorem check_sound_complete (m : MM) : check m = [] ↔ Spec m := by
       (stage3_eq_nil m).mpr s.parentsExist,
       (stage4_eq_nil m).mpr s.typesExist,
       (stage5_eq_nil m).mpr s.acyclic,
-      (stage6_eq_nil m).mpr ⟨s.noRedeclaration, s.ctorInherited⟩,
+      (stage6_eq_nil m).mpr ⟨s.inheritedUnique, s.noRedeclaration, s.ctorInherited⟩,
       d7,
       (stage8_eq_nil m).mpr ⟨d8, s.optionalDefaults, s.ctorMatches, s.shapes, s.patterns, s.invariantsUnique⟩⟩
 
